@@ -237,6 +237,35 @@ class GWorld(World):
         # files under up/ belong to the upstream: local edits there would make every pull conflict
         return [p for p in super().worktree_files() if not p.startswith("up/")]
 
+    # ---- detached HEAD
+    def op_detach(self):
+        """git checkout --detach / git checkout <sha>: from here on a move of HEAD updates no refs/heads/..."""
+        if self.cur == "HEAD":
+            return None
+        target = None
+        if self.r.chance(1, 3) and self._clean():
+            rc, out, _ = self.sim.realgit("rev-parse", "-q", "--verify", "HEAD~1")
+            target = out.strip() if rc == 0 else None
+        rc, _, _ = self.git(*(["checkout", "-q", target] if target else ["checkout", "-q", "--detach"]))
+        if rc == 0:
+            self.cur = "HEAD"
+        self.trace.append(("detach", "sha" if target else "here", rc))
+        return rc
+
+    def keep_detached(self):
+        """give the commits of a detached HEAD a branch (plain git) before leaving it, so that they stay observable"""
+        if self.cur == "HEAD":
+            name = f"keep{len(self.branches)}"
+            self.realgit("branch", name, "HEAD")
+            self.branches.append(name)
+
+    def op_switch(self):
+        self.keep_detached()
+        return super().op_switch()
+
+    def op_branch(self):
+        return super().op_branch()
+
     # ---- extra command shapes
     def op_checkout_path(self):
         files = self.tracked()
@@ -356,6 +385,8 @@ def snapshot(sim):
         trees: {branch: tree}}"""
     snap = {"branches": {}, "notes": {}, "blame": {}, "trees": {}, "raw": {}}
     names = [b for b in _q(sim, "for-each-ref", "--format=%(refname:short)", "refs/heads").split("\n") if b]
+    if _rev(sim, "HEAD"):
+        names.append("HEAD")          # also what is only reachable from a detached HEAD
     for b in sorted(names):
         shas = [s for s in _q(sim, "rev-list", "--reverse", b).split("\n") if s]
         snap["branches"][b] = shas
@@ -493,13 +524,16 @@ STREAMS = {
     # the common alphabet, weighted towards what people do all day
     "mixed": [(9, "edit"), (6, "commit"), (2, "commit_partial"), (2, "amend"), (2, "branch"), (3, "switch"),
               (2, "rebase"), (1, "rebase_i"), (2, "cherry_pick"), (2, "reset"), (2, "stash"), (2, "stash_pop"),
-              (1, "merge_squash"), (1, "checkout_path"), (1, "reset_path"), (1, "stash_apply"), (1, "stash_drop")],
+              (1, "merge_squash"), (1, "checkout_path"), (1, "reset_path"), (1, "stash_apply"), (1, "stash_drop"), (2, "detach")],
     # linear work: commit / amend / reset / stash / switch (no sequencer)
     "linear": [(9, "edit"), (6, "commit"), (3, "commit_partial"), (3, "amend"), (2, "branch"), (3, "switch"),
-               (3, "reset"), (2, "stash"), (3, "stash_pop"), (1, "merge_squash")],
+               (3, "reset"), (2, "stash"), (3, "stash_pop"), (1, "merge_squash"), (2, "detach")],
+    # work on a detached HEAD (checkout --detach / checkout <sha>): reset, commit, stash, cherry-pick, rebase there
+    "detached": [(4, "detach"), (9, "edit"), (6, "commit"), (2, "commit_partial"), (1, "amend"), (5, "reset"), (2, "stash"),
+                 (3, "stash_pop"), (2, "cherry_pick"), (1, "rebase"), (1, "branch"), (1, "switch"), (1, "merge_squash")],
     # history rewriting
     "rewrite": [(8, "edit"), (6, "commit"), (2, "branch"), (3, "switch"), (4, "rebase"), (3, "rebase_i"),
-                (4, "cherry_pick"), (1, "amend"), (1, "merge_squash")],
+                (4, "cherry_pick"), (1, "amend"), (1, "merge_squash"), (1, "detach")],
     # pull (needs the sibling upstream)
     "pull": [(8, "edit"), (5, "commit"), (3, "pull_ff"), (3, "pull_rebase"), (1, "amend"), (1, "stash"), (1, "stash_pop")],
 }
@@ -546,9 +580,12 @@ def run_ops(w, r, stream, n_ops):
             w.op_pull(False)
         elif op == "pull_rebase":
             w.op_pull(True)
+        elif op == "detach":
+            w.op_detach()
     # materialise whatever is pending on the current branch
     w.op_edit(actor=r.pick(["s1", "s2"]))
     w.op_commit("final")
+    w.keep_detached()
 
 
 def initial_files(r, w):
@@ -607,7 +644,9 @@ class Observer:
         a = st[1]
         cmd = a[0] if a else ""
         head0 = _rev(sim, "HEAD")
-        b = {"jcount0": len(sim.journal()), "head0": head0}
+        with sim.quiet():
+            rc_sym, _, _ = sim.realgit("symbolic-ref", "-q", "HEAD")
+        b = {"jcount0": len(sim.journal()), "head0": head0, "detached0": rc_sym != 0}
         if cmd == "stash":
             b["stash_depth0"] = len([l for l in _q(sim, "stash", "list", "--format=%H").split("\n") if l])
             b["stash_top0"] = _rev(sim, "refs/stash")
@@ -972,7 +1011,7 @@ def model_case(i, st, seg, journal_w, ids, sim_maps):
     hooks = seg["hooks"]
     names = [h["name"] for h in hooks]
     f = {"head": ids(st["head0"]), "head_after": ids(st["head1"]), "parent_after": ids(st.get("parent1")),
-         "exit_ok": _b(st["rc"] == 0)}
+         "exit_ok": _b(st["rc"] == 0), "detached": _b(st.get("detached0"))}
     prefix = journal_w[:st["jcount0"]]
     cls = None
     if cmd == "commit":
@@ -1432,6 +1471,61 @@ def t_reset_hard_untracked(w):
     _commit(w, "re")
 
 
+def _detached(kind, how="--detach"):
+    """the histories of the branch templates, on a detached HEAD (a move of HEAD updates no refs/heads/...)"""
+    def f(w):
+        _ai(w, "a.txt", A0 + ["AI0"])
+        _commit(w, "c0")
+        if how == "sha":
+            w.write("b.txt", _txt(["b1", "b2", "b3"]))
+            _commit(w, "c0b")
+            w.git("checkout", "-q", "HEAD~1")
+        else:
+            w.git("checkout", "-q", "--detach")
+        _ai(w, "a.txt", A0 + ["AI0", "AI1", "AI2"])
+        _commit(w, "second")
+        if kind in ("soft", "mixed", "hard"):
+            _ai(w, "c.txt", ["C1", "C2"], "s2")
+            if kind == "hard":
+                _commit(w, "third")
+            w.git("reset", *(["--soft"] if kind == "soft" else ["--hard"] if kind == "hard" else []), "HEAD~1")
+            if kind == "hard":
+                w.write("c.txt", _txt(["H1"]))
+            _commit(w, "again")
+        elif kind == "amend":
+            _ai(w, "a.txt", A0 + ["AI0", "AI1", "AI2", "AI3"], "s2")
+            w.realgit("add", "-A")
+            w.git("commit", "-q", "--amend", "--no-edit")
+        elif kind == "stash":
+            _ai(w, "a.txt", A0 + ["AI0", "AI1", "AI2", "P1"], "s2")
+            w.git("stash")
+            w.write("d.txt", "h\n")
+            _commit(w, "mid")
+            w.git("stash", "pop")
+            _commit(w, "popped")
+        elif kind == "cherry_pick":
+            w.git("switch", "-q", "-c", "side", "main")
+            _ai(w, "c.txt", ["C1", "C2"], "s2")
+            _commit(w, "s1")
+            w.git("checkout", "-q", "--detach", "main")
+            w.git("cherry-pick", "side", env_extra=E)
+            _after(w)
+        elif kind == "rebase_stop_reset":
+            pass
+        w.git("switch", "-q", "-c", "kept")
+    f.__name__ = "t_detached_" + kind
+    return f
+
+
+def t_stopped_rebase_reset(w):
+    """a rebase stopped by `edit` leaves HEAD detached: reset --soft of the just-picked commit, commit again, continue"""
+    _feature2(w)
+    w.git("switch", "-q", "feat")
+    w.git("rebase", "-i", "main", env_extra=_seq_env(w, "edit"))
+    w.git("rebase", "--continue", env_extra=E)
+    _after(w)
+
+
 def t_checkout_branch_pending(w):
     _pend(w)
     w.git("checkout", "-b", "nb")
@@ -1504,6 +1598,14 @@ TEMPLATES = {
     "reset_hard_untracked": (t_reset_hard_untracked, ("C13-K6",)),
     "checkout_branch_pending": (t_checkout_branch_pending, ()),
     "checkout_path": (t_checkout_path, ("C13-K7",)),
+    "detached_reset_soft": (_detached("soft"), ()),
+    "detached_reset_mixed": (_detached("mixed"), ()),
+    "detached_reset_hard": (_detached("hard"), ()),
+    "detached_sha_reset_soft": (_detached("soft", "sha"), ()),
+    "detached_amend": (_detached("amend"), ()),
+    "detached_stash_pop": (_detached("stash"), ()),
+    "detached_cherry_pick": (_detached("cherry_pick"), ()),
+    "rebase_edit_continue": (t_stopped_rebase_reset, ()),
     "pull_ff": (t_pull_ff, ()),
     "pull_rebase": (t_pull_rebase, ()),
 }
@@ -1560,7 +1662,8 @@ def correspondence(results):
 def plan(tier):
     q = tier == "quick"
     items = [{"stream": "template", "template": t, "both": t in BOTH_TEMPLATES} for t in TEMPLATES]
-    n = {"linear": 12, "mixed": 12, "rewrite": 10, "pull": 8} if q else {"linear": 300, "mixed": 400, "rewrite": 300, "pull": 200}
+    n = {"linear": 10, "mixed": 10, "rewrite": 8, "pull": 6, "detached": 10} if q else \
+        {"linear": 250, "mixed": 350, "rewrite": 250, "pull": 150, "detached": 250}
     for stream, k in n.items():
         for j in range(k):
             items.append({"stream": stream, "both": j % 6 == 0})
